@@ -1572,7 +1572,10 @@ def check_C20(tier, seed, replay):
         # (without the inputs of tens of kilobytes: their place is the sequential run)
         tcases = os.path.join(vlib.famdir(name, r.tier), "cases_threads.tsv")
         with open(tcases, "w") as f_:
-            f_.write("".join(l_ for l_ in open(os.path.join(r.cdir, "cases.tsv")) if len(l_) < 40000 and "\t@" not in l_))
+            tl = [l_ for l_ in open(os.path.join(r.cdir, "cases.tsv")) if len(l_) < 40000 and "\t@" not in l_]
+            if len(tl) > 60000:
+                tl = tl[::len(tl) // 60000 + 1]      # (threads x rounds x cases parses: an even sample of the largest families)
+            f_.write("".join(tl))
         p_ = subprocess.run([binp, tcases, of, "0", "--threads", str(nthreads), "--rounds", str(rounds)],
                             stdout=subprocess.PIPE, stderr=subprocess.PIPE, text=True, timeout=3600)
         if p_.returncode != 0:
